@@ -42,7 +42,7 @@ class MinimizeStub:
                  constraints=(), tol=None, callback=None, options=None, **kw):
         rec = dict(fun=fun, x0=np.array(x0, dtype=object, copy=True), method=method, jac=jac, hess=hess,
                    bounds=None if bounds is None else [tuple(b) for b in bounds],
-                   constraints=constraints, tol=tol, options=options, kw=kw)
+                   constraints=constraints, tol=tol, options=options, callback=callback, kw=kw)
         self.calls.append(rec)
         k = len(self.calls)
         if self.fault_hook is not None:
